@@ -177,3 +177,105 @@ Proof.
   - apply lb_map. apply lb_seq_l. apply (lb_weaken G_xml f' _ _ (S (2 ^ k))); [lia|]. apply lb_nt. intros f''. rewrite body_choice.
     apply lb_in_group. intros f3. apply cp_cost. apply tail_bar.
 Qed.
+
+(** ** the whole document `<!DOCTYPE a [<!ELEMENT a ((..(a|b)|b)..|b)>]><a/>` at the fuel of [run] *)
+From XmlRs Require Import Proofs.DisplayElem Proofs.DisplayDoc Proofs.DisplayDtd.
+
+Lemma body_element_decl : body G_xml nt_element_decl =
+  Map L_model_DeclarationElement_from (SeqR (Seq (Tag [60;33;69;76;69;77;69;78;84]) (Chars1 ws))
+    (SeqL (Seq (NT nt_qname) (SeqR (Chars1 ws) (NT nt_content_spec))) (Seq (Chars0 ws) (Tag [62])))).
+Proof. reflexivity. Qed.
+Lemma body_content_spec : body G_xml nt_content_spec =
+  Alt (Map L_closure_96065bcb (Tag [69;77;80;84;89])) (Alt (Map L_closure_eea513b6 (Tag [65;78;89]))
+      (Alt (Map L_model_DeclarationContent_Mixed (NT nt_mixed)) (Map L_model_DeclarationContent_Children (NT nt_children)))).
+Proof. reflexivity. Qed.
+Lemma body_mixed : body G_xml nt_mixed =
+  Alt (Map L_Some (SeqR (Seq (Tag [40]) (Seq (Chars0 ws) (Tag [35;80;67;68;65;84;65])))
+                        (SeqL (Many0 (SeqR bar_sep' (NT nt_qname))) (Seq (Chars0 ws) (Tag [41;42])))))
+      (Map L_closure_b4173c6c (Seq (Tag [40]) (Seq (Chars0 ws) (Seq (Tag [35;80;67;68;65;84;65]) (Seq (Chars0 ws) (Tag [41])))))).
+Proof. reflexivity. Qed.
+
+Lemma mixed_fails k (z : str) : F (NT nt_mixed) (grp (S k) ++ z).
+Proof.
+  apply fails_nt. rewrite body_mixed. cbn [grp app]. destruct (grp_head k) as [c [t [-> Hc]]]. cbn [app].
+  assert (stops (eval ws) (c :: t ++ [124; 98; 41] ++ z)) as Hws by (destruct Hc as [-> | ->]; reflexivity).
+  assert (prefix [35;80;67;68;65;84;65] (c :: t ++ [124; 98; 41] ++ z) = None) as Hp by (destruct Hc as [-> | ->]; reflexivity).
+  rewrite <- app_assoc. apply fails_alt; apply fails_map.
+  - apply fails_seqr_l. eapply fails_seq_r; [apply (parses_tag G_xml [40])|].
+    eapply fails_seq_r; [apply parses_chars0_nil; exact Hws|]. apply fails_tag. exact Hp.
+  - eapply fails_seq_r; [apply (parses_tag G_xml [40])|].
+    eapply fails_seq_r; [apply parses_chars0_nil; exact Hws|]. apply fails_seq_l. apply fails_tag. exact Hp.
+Qed.
+
+Definition doc_post : str := [62;93;62;60;97;47;62].
+Definition nested_doc (k : nat) : str :=
+  [60;33;68;79;67;84;89;80;69;32;97;32;91;60;33;69;76;69;77;69;78;84;32;97;32] ++ grp (S k) ++ doc_post.
+
+Lemma nested_doc_length k : length (nested_doc k) = (4 * k + 37)%nat.
+Proof. unfold nested_doc. rewrite !app_length, grp_length. cbn [length doc_post]. lia. Qed.
+
+Lemma content_spec_cost k f : lbx f (NT nt_content_spec) (grp (S k) ++ doc_post) (2 ^ S k).
+Proof.
+  apply (lb_weaken G_xml f _ _ (S (2 ^ S k))); [lia|]. apply lb_nt. intros f'. rewrite body_content_spec.
+  assert (exists t, grp (S k) ++ doc_post = 40 :: t) as [t Et] by (cbn [grp app]; eauto).
+  apply lb_alt_r; [apply fails_map; apply fails_tag; rewrite Et; reflexivity|].
+  apply lb_alt_r; [apply fails_map; apply fails_tag; rewrite Et; reflexivity|].
+  apply lb_alt_r; [apply fails_map; apply mixed_fails|].
+  apply lb_map. apply children_cost. exists 62, [93;62;60;97;47;62]. auto.
+Qed.
+
+Ltac sp1 := apply (parses_chars1 G_xml ws [32]); [discriminate|reflexivity|exact eq_refl].
+
+Lemma qname_a (r : str) : stops (eval is_name_char) r -> exists t, P (NT nt_qname) (97 :: r) t r.
+Proof. intros Hr. eexists. apply (parses_qname (Unprefixed [97]) r); [vm_compute; auto|exact Hr]. Qed.
+
+Lemma element_decl_cost k f :
+  lbx f (NT nt_element_decl) ([60;33;69;76;69;77;69;78;84;32;97;32] ++ grp (S k) ++ doc_post) (2 ^ S k).
+Proof.
+  apply (lb_weaken G_xml f _ _ (S (2 ^ S k))); [lia|]. apply lb_nt. intros f'. rewrite body_element_decl.
+  apply lb_map. eapply lb_seqr_r.
+  { eapply parses_seq; [apply (parses_tag G_xml [60;33;69;76;69;77;69;78;84])|sp1]. }
+  apply lb_seql_l.
+  destruct (qname_a (32 :: grp (S k) ++ doc_post) eq_refl) as [tq Hq].
+  eapply lb_seq_r; [exact Hq|]. eapply lb_seqr_r.
+  { apply (parses_chars1 G_xml ws [32] (grp (S k) ++ doc_post)); [discriminate|reflexivity|reflexivity]. }
+  apply content_spec_cost.
+Qed.
+
+Lemma int_subset_cost k f :
+  lbx f (NT nt_int_subset) ([60;33;69;76;69;77;69;78;84;32;97;32] ++ grp (S k) ++ doc_post) (2 ^ S k).
+Proof.
+  apply (lb_weaken G_xml f _ _ (S (S (2 ^ S k)))); [lia|]. apply lb_nt. intros f'. rewrite body_int_subset.
+  apply lb_many0_first. apply lb_alt_l. apply lb_map.
+  apply lb_nt. intros f''. rewrite body_markup_decl. apply lb_alt_l. apply lb_map. apply element_decl_cost.
+Qed.
+
+Lemma doctype_cost k f : lbx f (NT nt_doctype_decl) (nested_doc k) (2 ^ S k).
+Proof.
+  apply (lb_weaken G_xml f _ _ (S (2 ^ S k))); [lia|]. apply lb_nt. intros f'. rewrite body_doctype_decl. unfold nested_doc.
+  apply lb_map.
+  destruct (qname_a (32 :: 91 :: [60;33;69;76;69;77;69;78;84;32;97;32] ++ grp (S k) ++ doc_post) eq_refl) as [tq Hq].
+  eapply lb_seq_r.
+  { eapply parses_seqr; [eapply parses_seq; [apply (parses_tag G_xml [60;33;68;79;67;84;89;80;69])|sp1]|exact Hq]. }
+  eapply lb_seq_r.
+  { eapply parses_seql.
+    - apply parses_opt_none. eapply fails_seqr_r; [sp1|]. apply fails_external_id; reflexivity.
+    - apply (parses_chars0 G_xml ws [32] (91 :: [60;33;69;76;69;77;69;78;84;32;97;32] ++ grp (S k) ++ doc_post)); reflexivity. }
+  apply lb_seql_l. apply lb_opt. eapply lb_seqr_r; [apply (parses_tag G_xml [91])|].
+  apply lb_seql_l. apply int_subset_cost.
+Qed.
+
+Theorem document_cost k f : lbx f (NT nt_document) (nested_doc k) (2 ^ S k).
+Proof.
+  apply (lb_weaken G_xml f _ _ (S (S (2 ^ S k)))); [lia|]. apply lb_nt. intros f'. rewrite body_document.
+  apply lb_map. apply lb_seq_l. apply lb_nt. intros f''. rewrite body_prolog. apply lb_map.
+  eapply lb_seq_r; [apply parses_opt_none; apply fails_xml_decl_tag; reflexivity|].
+  eapply lb_seq_r; [apply parses_many0; apply mp_stop; apply fails_misc; repeat split|].
+  apply lb_opt. apply lb_seq_l. apply doctype_cost.
+Qed.
+
+(** at the fuel [run] uses: the number of non-terminal calls on a document of [4k + 37]
+    characters is at least [2^(k+1)] -- no polynomial bounds the cost of [parse_document] *)
+Theorem run_cost_exponential k :
+  (2 ^ S k <= cost G_xml (fuel_bound G_xml_R (nested_doc k)) (NT nt_document) (nested_doc k))%nat.
+Proof. apply document_cost. exact (xml_grammar_terminates nt_document (nested_doc k)). Qed.
